@@ -1388,6 +1388,35 @@ def macro_rule_arms(toks, macro):
             return
 
 
+def collect_trait_fns(repo_src_reader, files):
+    """[(trait name, fn name)] for every `fn` declared (with or without a default body) inside a `trait` block"""
+    from rustlex import lex
+    out = []
+    for rel in files:
+        toks = lex(repo_src_reader(rel))
+        i = 0
+        n = len(toks)
+        while i < n - 2:
+            if toks[i] == ('id', 'trait') and toks[i + 1][0] == 'id' and (i == 0 or toks[i - 1] != ('p', '::')):
+                name = toks[i + 1][1]
+                j = i + 2
+                while j < n and toks[j] != ('p', '{') and toks[j] != ('p', ';'):
+                    j += 1
+                if j < n and toks[j] == ('p', '{'):
+                    e = match_close(toks, j)
+                    depth = 0
+                    for q in range(j + 1, e):
+                        kk, tt = toks[q]
+                        if kk == 'p' and tt == '{': depth += 1
+                        if kk == 'p' and tt == '}': depth -= 1
+                        if depth == 0 and kk == 'id' and tt == 'fn' and toks[q + 1][0] == 'id':
+                            out.append((name, toks[q + 1][1]))
+                    i = e + 1
+                    continue
+            i += 1
+    return out
+
+
 def collect_impls(repo_src_reader, files):
     """every `impl` header of the given files (with `impl_ops!` inlined): [(discriminator, [kind-bound marker names])]"""
     from rustlex import lex
